@@ -72,6 +72,10 @@ def wellformed(rng, fmt, small=True):
             p['extents'] = p['extents'][:1]
         if rng.random() < 0.3:
             p['hdr_filler_seed'] = rng.getrandbits(30)
+        if rng.random() < 0.25:
+            p['crlf'] = True
+        if rng.random() < 0.15:
+            p['ctype_blanks'] = True
         if rng.random() < 0.3:
             # not-NUL bytes after the NUL that ends the descriptor text, inside the descriptor's sectors
             p['desc_stale'] = rng.choice(['ascii', 'utf8', 'late-utf8', 'bin1', 'bin%d' % rng.randrange(1000)])
